@@ -27,7 +27,7 @@ def run(ctx):
                        "ParamSets": "<- MC_ParamSets", "Passwords": "<- MC_Passwords", "IdPairs": "<- MC_IdPairs",
                        "ClassSet": "<- MC_ClassSet", "MaxInst": "3", "MaxRestore": "1",
                        "ScalarChoices": "<- MC_ScalarChoices", "Attacker": "<- MC_Attacker"})
-        ctx.mc("MC_Agree", cfg(spec="SeqSpec", constants=consts, invariants=["Agreement", "KeyOnlyFromCanonical"]),
+        ctx.mc("MC_Agree", cfg(view="ViewNoLast", spec="SeqSpec", constants=consts, invariants=["Agreement", "KeyOnlyFromCanonical"]),
                label="MC_Agree/sequential[%s, all w,x,y] (K formulas of both roles coincide)" % g)
     # 3. byte-exact start()/finish() on every shipped set, custom seeds, toy groups; fresh and restored
     uni = Universe()
